@@ -99,6 +99,8 @@ ExpAny == [any |-> TRUE]
 MatchPlain(x, o) == IF "rej" \in DOMAIN x
                     THEN /\ "exc" \in DOMAIN o /\ \E i \in DOMAIN x.rej : (x.rej[i] = o.exc \/ x.rej[i] = "*")
                          /\ ("late" \in DOMAIN o => "late" \in DOMAIN x)
+                         \* x.after: the state the object must show after the refused call
+                         /\ ("after" \in DOMAIN x => ("after" \in DOMAIN o /\ o.after = x.after))
                     ELSE x = o
 \*   x = [any |-> TRUE]        : unjudged - every outcome is acceptable
 \*   x = [okorrej |-> <<f1,..>>]: any object, or a refusal from the listed families
